@@ -5,6 +5,7 @@ import (
 	"crypto/sha512"
 	"fmt"
 	"os"
+	"path"
 	"path/filepath"
 	"sort"
 	"strings"
@@ -157,7 +158,7 @@ func runC13(c *Ctx) {
 	}
 	defer os.RemoveAll(root)
 	images := [][]byte{cleanFirmware(0x1000, 1), cleanFirmware(0x1000, 2), cleanFirmware(0x1000, 3), cleanFirmware(0x2000, 4)}
-	cands := []string{"", "rc0", "rc1", "rc2"}
+	cands := []string{"", "rc0", "rc1", "rc2", "rc0", "rc1", "x/../rc0", "./rc1", "sub/rc2", "sub/../sub/rc2"}
 	nh := c.N(25, 400)
 	for h := 0; h < nh; h++ {
 		dir := filepath.Join(root, fmt.Sprintf("h%d", h))
@@ -172,7 +173,12 @@ func runC13(c *Ctx) {
 			ts := baseTime.Add(time.Duration(h*100+r) * time.Second)
 			dg := sha512.Sum384(img)
 			err := runEndorse(dir, img, cand, ow, ts)
-			runToks = append(runToks, fmt.Sprintf("%s:%s:%d:%s", cand, hx(dg[:]), ts.Unix(), b2s(ow)))
+			// the model sees the canonical spelling of the candidate (computed here with path.Clean,
+			// independently of the code under test); the direct oracle below works on the disk
+			runToks = append(runToks, fmt.Sprintf("%s:%s:%d:%s", cleanCand(cand), hx(dg[:]), ts.Unix(), b2s(ow)))
+			if cleanCand(cand) != cand {
+				c.Count("hist/unclean-candidate")
+			}
 			oks = append(oks, b2s(err == nil))
 			if err == nil {
 				anyOK = true
@@ -185,7 +191,7 @@ func runC13(c *Ctx) {
 			if err == nil {
 				// latest digest maps to the file this run wrote
 				m, _ := readManifest(dir)
-				want := endorseBasename(cand)
+				want := endorseBasename(cleanCand(cand))
 				ok := false
 				for _, e := range m {
 					if e.digest == hx(dg[:]) && e.path == want {
@@ -204,6 +210,13 @@ func runC13(c *Ctx) {
 			nruns >= 2 && anyOK)
 		c.Count(fmt.Sprintf("hist/len%d", nruns))
 	}
+}
+
+func cleanCand(cand string) string {
+	if cand == "" {
+		return ""
+	}
+	return strings.TrimSuffix(path.Clean(cand+".binarypb"), ".binarypb")
 }
 
 func endorseBasename(cand string) string {
@@ -260,17 +273,19 @@ func signedDigestOf(path string) (string, error) {
 }
 
 func listEndorsementFiles(dir string) []string {
-	ents, _ := os.ReadDir(filepath.Join(dir, "out"))
 	var out []string
-	for _, e := range ents {
-		if strings.HasSuffix(e.Name(), ".binarypb") {
-			d, err := signedDigestOf(filepath.Join(dir, "out", e.Name()))
+	root := filepath.Join(dir, "out")
+	filepath.Walk(root, func(p string, info os.FileInfo, err error) error {
+		if err == nil && !info.IsDir() && strings.HasSuffix(p, ".binarypb") {
+			d, err := signedDigestOf(p)
 			if err != nil {
 				d = "unreadable"
 			}
-			out = append(out, e.Name()+":"+d)
+			rel, _ := filepath.Rel(root, p)
+			out = append(out, rel+":"+d)
 		}
-	}
+		return nil
+	})
 	sort.Strings(out)
 	return out
 }
